@@ -484,6 +484,48 @@ func init() {
 				rep.violation(map[string]any{"key": k.id.String()}, "the key", fmt.Sprint(err), "the DID of a secp256k1 point held as an ECDSA key does not give the key back")
 			}
 		}
+		// RSA moduli of every size the key library takes (2048 .. 8192 bits): the identifier grows with the key. Only
+		// the PUBLIC key matters here, so the modulus is any odd number of that size (no prime search).
+		var rsaSizes []int
+		for _, bits := range []int{2048, 3072, 4096, 6144, 8192} {
+			nb := make([]byte, bits/8)
+			if _, err := rand.Read(nb); err != nil {
+				return err
+			}
+			nb[0] |= 0x80
+			nb[len(nb)-1] |= 1
+			std := &rsa.PublicKey{N: new(big.Int).SetBytes(nb), E: 65537}
+			der, err := x509.MarshalPKIXPublicKey(std)
+			if err != nil {
+				return err
+			}
+			pk, err := crypto.UnmarshalRsaPublicKey(der)
+			if err != nil {
+				rep.drift(map[string]any{"rsa_bits": bits}, "a key", err.Error(), "the key library does not take an RSA public key of this size")
+				continue
+			}
+			rep.Evaluations++
+			rsaSizes = append(rsaSizes, bits)
+			cs := map[string]any{"rsa_bits": bits}
+			d, err := did.FromPubKey(pk)
+			if err != nil {
+				rep.violation(cs, "a DID", err.Error(), "did.FromPubKey refuses an RSA public key")
+				continue
+			}
+			d2, err := did.Parse(d.String())
+			if err != nil || d2 != d {
+				rep.violation(cs, "parses back to an equal DID", fmt.Sprint(err), fmt.Sprintf("the did:key text (%d characters) of an RSA key does not parse back", len(d.String())))
+				continue
+			}
+			if back, err := d2.PubKey(); err != nil || !back.Equals(pk) {
+				rep.violation(cs, "the key", fmt.Sprint(err), "the DID of an RSA key does not give the key back")
+				continue
+			}
+			if back, err := did.ToPubKey(d.String()); err != nil || !back.Equals(pk) {
+				rep.violation(cs, "the key", fmt.Sprint(err), "did.ToPubKey on the text of an RSA key's DID does not give the key back")
+			}
+		}
+		rep.Extra["rsa_modulus_sizes"] = rsaSizes
 		rep.Extra["injectivity_pairs"] = pairs
 		return nil
 	}
